@@ -24,7 +24,7 @@ def load_property_module(pid):
 
 def _verify_one(args):
     """worker: verify one unit (symbolic execution + solving), return a picklable summary"""
-    pid, idx, tier, timeout_ms, overrides = args
+    pid, idx, tier, timeout_ms, overrides, width = args
     import z3
     from . import verify, loader
     from .contracts import Registry
@@ -45,13 +45,14 @@ def _verify_one(args):
             for name, pc in res.covers:
                 out["covers"].append((name, verify.check_cover(pc)))
             hv = sorted(ex.notes.get("havoc_calls") or [])
-            for ob in ex.obls:
-                if hv:
+            if hv:
+                for ob in ex.obls:
                     # a callee without contract was havocked: nothing in this unit can be decided ("needs contract")
                     ob.status, ob.backend, ob.time = "unknown", "-", 0.0
                     ob.reason = "unit calls functions without contract (havocked): " + ", ".join(hv)
-                else:
-                    verify.solve_obligation(ob, timeout_ms, ex=ex)
+            else:
+                verify.solve_all(ex.obls, timeout_ms, ex, width)
+            for ob in ex.obls:
                 d = {"name": ob.name, "kind": ob.kind, "status": ob.status, "backend": ob.backend,
                      "time": round(ob.time, 4), "info": _jsonable(ob.info)}
                 if ob.status == "refuted":
@@ -83,7 +84,8 @@ def run_units(pid, tier, timeout_ms, overrides=None, only=None, jobs=None):
     reg.units = [c for c in reg.units if pid in c.props]
     idxs = [i for i, c in enumerate(reg.units) if only is None or any(o in c.name for o in only)]
     jobs = jobs or min(16, max(1, len(idxs)))
-    args = [(pid, i, tier, timeout_ms, overrides) for i in idxs]
+    width = max(1, 16 // max(1, min(jobs, len(idxs))))     # obligations solved concurrently inside one unit
+    args = [(pid, i, tier, timeout_ms, overrides, width) for i in idxs]
     if jobs == 1 or len(args) <= 1:
         return [_verify_one(a) for a in args], reg, mod
     ctx = mp.get_context("fork")
